@@ -122,6 +122,17 @@ func c07Corpus(w *Worker, base []*genCase) []*genCase {
 		}
 		out = append(out, &genCase{Origin: "family:twelve-symbols [references with a leading zero]", Spec: long, Tags: t, Shape: gen.Padded})
 	}
+	// the int member of the %union under everyday names (it must not meet a field of the parser's own records)
+	expr := gram.Parse("E", []string{"TA"}, "E: E '+' T | T ; T: T '*' F | F ; F: '(' E ')' | TA")
+	for _, name := range []string{"pos", "val", "line", "col", "off", "sym", "state", "index", "typ", "text", "num", "str", "node", "list",
+		"name", "id", "tok", "kind", "start", "end", "value", "next", "prev", "top", "data", "loc", "ty", "act", "depth", "count", "code", "lookahead",
+		"Yystate", "YySymIndex"} {
+		t := gen.Tags{}
+		for _, x := range append(expr.Terminals(), expr.Nonterminals()...) {
+			t[x] = "n"
+		}
+		out = append(out, &genCase{Origin: "family:slr-expr [union member called " + name + "]", Spec: expr, Tags: t, Shape: gen.UseAll, FieldN: name})
+	}
 	if w.Shard == 0 {
 		w.Count("c07_base_grammars", int64(n))
 	}
